@@ -771,8 +771,9 @@ print_res (NiceAgent *agent)
   for (i = agent->streams; i; i = i->next) printf (" %u:%u", ((NiceStream *) i->data)->id, g_slist_length (((NiceStream *) i->data)->conncheck_list));
   printf (" pruning");
   for (i = agent->pruning_streams; i; i = i->next) printf (" %u", ((NiceStream *) i->data)->id);
-  printf (" keepalive %d conncheck %d discoverytimer %d next %u", agent->keepalive_timer_source != NULL,
-      agent->conncheck_timer_source != NULL, agent->discovery_timer_source != NULL, agent->next_stream_id);
+  printf (" keepalive %d conncheck %d discoverytimer %d next %u unsched %u", agent->keepalive_timer_source != NULL,
+      agent->conncheck_timer_source != NULL, agent->discovery_timer_source != NULL, agent->next_stream_id,
+      agent->discovery_unsched_items);
   agent_unlock (agent);
 }
 
